@@ -567,6 +567,11 @@ def const_branch(cx, inst, items, E, node):
                 and D(strip(two[1])) == IN:
             return cx.rep.fail(rule, inst, "one-sided tolerance `%s`: int() truncates toward zero, so for every negative non-integer the difference is negative and the integer is returned: -2.5 becomes -2" % U(c0),
                                where=cx.at(node))
+        if isinstance(c0, ast.Compare) and len(c0.ops) == 1 and isinstance(c0.ops[0], (ast.Lt, ast.LtE)) and isinstance(c0.left, ast.Call) and U(c0.left.func) in ("abs", "math.fabs", "np.abs", "numpy.abs", "sympy.Abs", "fabs") \
+                and len(c0.left.args) == 1 and D(c0.left.args[0]) in (P("float({e}) - int({e})".format(e=E)), P("int({e}) - float({e})".format(e=E))) \
+                and isinstance(c0.comparators[0], ast.Constant) and isinstance(c0.comparators[0].value, (int, float)) and c0.comparators[0].value > 0 and D(strip(two[1])) == IN:
+            return cx.rep.fail(rule, inst, "tolerance test `%s`: every constant within the tolerance of its truncation is replaced by the integer, so a regularisation constant such as 1e-12 becomes 0 "
+                               "(sqrt(x*x + 1e-12) turns into sqrt(x**2)): the value is not preserved" % U(c0), where=cx.at(node))
         t, a, b = D(two[0]), D(strip(two[1])), D(strip(two[2]))
         if t in [P(x.format(e=E)) for x in ne]:
             t, a, b = "eq", b, a
